@@ -68,18 +68,40 @@ class C01(core.Check):
     def shrink_candidates(self, case: dict) -> List[dict]:
         return pc.shrink_candidates(case)
 
+    # which model answers the main comparison: "geo" = c04.run (M-PROP with the chop calculator inside: counts, preserved
+    # quantities, expansions and schedule computed by the model from the chop arguments, vertex indexes and wire lengths),
+    # "prop" = c01.run (M-PROP on the schedule read from the implementation, expansions supplied by the harness).
+    # Given the schedule comparison (always made), "geo" covers everything "prop" compares.
+    model_paths = ("geo",)
+
+    def _model_requests(self, internals: dict, chops: List[dict]) -> List[str]:
+        out = []
+        if "prop" in self.model_paths:
+            out.append(pc.model_request(internals, chops))
+        if "geo" in self.model_paths:
+            out.append(pc.geo_request(internals, chops))
+        return out
+
+    def _model_compare(self, obs: dict, answers: List[str]) -> Optional[str]:
+        k = 0
+        if "prop" in self.model_paths:
+            why = pc.compare_with_model(obs, answers[k], level=self.compare_level)
+            if why:
+                return why
+            k += 1
+        if "geo" in self.model_paths:
+            return pc.compare_geo(obs, answers[k], level=self.compare_level)
+        return None
+
     def requests(self, case: dict, impl: Any) -> List[str]:
         if "internals" not in impl or impl.get("chop_error") or impl.get("unrealisable") or impl.get("extreme"):
             return []
         # (the last request is always the schedule: neighbours and coincident wires built from the vertex indexes)
-        # c01.run: M-PROP on the schedule read from the implementation, expansions supplied by the harness;
-        # c04.run: M-PROP with the chop calculator inside — counts, expansions and schedule computed by the model
-        reqs = [pc.model_request(impl["internals"], impl["chops"]), pc.geo_request(impl["internals"], impl["chops"])]
+        reqs = self._model_requests(impl["internals"], impl["chops"])
         m3 = (impl.get("third") or {}).get("model")
         if m3:
             # the write after the late chops against a fresh model run on all chops placed so far (M-HIST)
-            reqs.append(pc.model_request(m3["internals"], m3["chops"]))
-            reqs.append(pc.geo_request(m3["internals"], m3["chops"]))
+            reqs += self._model_requests(m3["internals"], m3["chops"])
         reqs.append(pc.sched_request(impl["internals"]))
         return reqs
 
@@ -87,14 +109,11 @@ class C01(core.Check):
         why = pc.compare_sched(impl["internals"], model[-1])
         if why:
             return why
-        why = pc.compare_with_model(impl, model[0], level=self.compare_level)
-        if why is None:
-            why = pc.compare_geo(impl, model[1], level=self.compare_level)
+        k = len(self.model_paths)
+        why = self._model_compare(impl, model[:k])
         m3 = (impl.get("third") or {}).get("model")
-        if why is None and m3 and len(model) > 4:
-            why = pc.compare_with_model(m3, model[2], level=self.compare_level) or pc.compare_geo(
-                m3, model[3], level=self.compare_level
-            )
+        if why is None and m3 and len(model) > 2 * k:
+            why = self._model_compare(m3, model[k : 2 * k])
             if why:
                 why = "write after late chops (session of M-HIST): " + why
         return why
